@@ -81,6 +81,137 @@ func rewriteFile(w *World, file *ast.File, kind string) ([]byte, int) {
 			}
 			return true
 		})
+	case "negif":
+		// if c {A} else {B}  ->  if !(c) {B} else {A}   (plain else blocks only)
+		ast.Inspect(file, func(m ast.Node) bool {
+			is, ok := m.(*ast.IfStmt)
+			if !ok || is.Else == nil {
+				return true
+			}
+			eb, ok := is.Else.(*ast.BlockStmt)
+			if !ok {
+				return true
+			}
+			is.Cond = &ast.UnaryExpr{Op: token.NOT, X: &ast.ParenExpr{X: is.Cond}}
+			is.Body, is.Else = eb, is.Body
+			n++
+			return true
+		})
+	case "vardecl":
+		// x := e  ->  var x = e   (statement level, one name, one value)
+		conv := func(list []ast.Stmt) {
+			for i, st := range list {
+				as, ok := st.(*ast.AssignStmt)
+				if !ok || as.Tok != token.DEFINE || len(as.Lhs) != 1 || len(as.Rhs) != 1 {
+					continue
+				}
+				id, ok := as.Lhs[0].(*ast.Ident)
+				if !ok || id.Name == "_" {
+					continue
+				}
+				list[i] = &ast.DeclStmt{Decl: &ast.GenDecl{Tok: token.VAR, Specs: []ast.Spec{&ast.ValueSpec{Names: []*ast.Ident{id}, Values: []ast.Expr{as.Rhs[0]}}}}}
+				n++
+			}
+		}
+		ast.Inspect(file, func(m ast.Node) bool {
+			switch b := m.(type) {
+			case *ast.BlockStmt:
+				conv(b.List)
+			case *ast.CaseClause:
+				conv(b.Body)
+			}
+			return true
+		})
+	case "incdec":
+		// x++ -> x += 1, x-- -> x -= 1 (statement level; loop post statements too)
+		var fix func(st ast.Stmt) ast.Stmt
+		fix = func(st ast.Stmt) ast.Stmt {
+			if ids, ok := st.(*ast.IncDecStmt); ok && pure(ids.X) {
+				op := token.ADD_ASSIGN
+				if ids.Tok == token.DEC {
+					op = token.SUB_ASSIGN
+				}
+				n++
+				return &ast.AssignStmt{Lhs: []ast.Expr{ids.X}, Tok: op, Rhs: []ast.Expr{&ast.BasicLit{Kind: token.INT, Value: "1"}}}
+			}
+			return st
+		}
+		ast.Inspect(file, func(m ast.Node) bool {
+			switch b := m.(type) {
+			case *ast.BlockStmt:
+				for i := range b.List {
+					b.List[i] = fix(b.List[i])
+				}
+			case *ast.CaseClause:
+				for i := range b.Body {
+					b.Body[i] = fix(b.Body[i])
+				}
+			case *ast.ForStmt:
+				if b.Post != nil {
+					b.Post = fix(b.Post)
+				}
+			}
+			return true
+		})
+	}
+	if kind == "rettmp" {
+		// return f(a, b)  ->  r0, r1 := f(a, b); return r0, r1
+		var pkg *packages.Package
+		for _, p := range w.Pkgs {
+			for _, f := range p.Syntax {
+				if f == file {
+					pkg = p
+				}
+			}
+		}
+		serial := 0
+		conv := func(list []ast.Stmt) []ast.Stmt {
+			if pkg == nil || len(list) == 0 {
+				return list
+			}
+			rs, ok := list[len(list)-1].(*ast.ReturnStmt)
+			if !ok || len(rs.Results) != 1 {
+				return list
+			}
+			ce, ok := rs.Results[0].(*ast.CallExpr)
+			if !ok {
+				return list
+			}
+			tv, ok := pkg.TypesInfo.Types[ce]
+			if !ok || tv.IsType() || tv.Type == nil {
+				return list
+			}
+			if _, isConv := pkg.TypesInfo.Types[ce.Fun]; isConv && pkg.TypesInfo.Types[ce.Fun].IsType() {
+				return list
+			}
+			cnt := 1
+			if tup, isTup := tv.Type.(*types.Tuple); isTup {
+				cnt = tup.Len()
+			}
+			if cnt == 0 {
+				return list
+			}
+			var lhs, res []ast.Expr
+			for j := 0; j < cnt; j++ {
+				nm := fmt.Sprintf("rt%d_%dZq", serial, j)
+				lhs = append(lhs, ast.NewIdent(nm))
+				res = append(res, ast.NewIdent(nm))
+			}
+			serial++
+			n++
+			out := append([]ast.Stmt{}, list[:len(list)-1]...)
+			out = append(out, &ast.AssignStmt{Lhs: lhs, Tok: token.DEFINE, Rhs: []ast.Expr{ce}}, &ast.ReturnStmt{Results: res})
+			return out
+		}
+		ast.Inspect(file, func(m ast.Node) bool {
+			switch b := m.(type) {
+			case *ast.BlockStmt:
+				b.List = conv(b.List)
+			case *ast.CaseClause:
+				b.Body = conv(b.Body)
+			}
+			return true
+		})
 	}
 	if kind == "renamelocals" {
 		// every local variable and parameter gets a new name (definition and all uses)
